@@ -30,8 +30,8 @@ class C05(Check):
     id = "C05"
     title = "Persisting to SQL and reloading in a fresh session restores the object graph"
     rule = (
-        "Hypothesis draws models and object graphs as for C04 (freshly generated models incl. a lossless alternative "
-        "mapping and custom column type). Per graph: a fresh in-memory SQLite engine from "
+        "Hypothesis draws models and object graphs as for C04 (freshly generated models incl. lossless alternative "
+        "mappings, a normally mapped subclass of an alternatively mapped class, and a custom column type). Per graph: a fresh in-memory SQLite engine from "
         "krrood.ormatic.utils.create_engine, create_all, to_dao of the roots, add_all, commit, close; then a new "
         "Session, and for the root's DAO class and every DAO base class in its inheritance chain the row with the "
         "root's key is loaded and from_dao'ed. Oracle: the C04 bisimulation with relationship collections compared "
@@ -117,6 +117,12 @@ class C05(Check):
                             got = session.execute(select(func.count()).select_from(layer.dao_class(layer.mod.Vec).__table__)).scalar()
                             if got != want:
                                 return bad("wrong_row_count", f"table of the alternatively mapped class: {got} rows for {want} distinct objects")
+                            for cname in ("Label", "Title"):
+                                want = sum(1 for o in reach if isinstance(o, getattr(layer.mod, cname)))
+                                table = layer.dao_class(getattr(layer.mod, cname)).__table__
+                                got = session.execute(select(func.count()).select_from(table)).scalar()
+                                if got != want:
+                                    return bad("wrong_row_count", f"table {table.name}: {got} rows for {want} distinct objects")
                     # ---- reload through every DAO class of the chain
                     for root, key in zip(roots, keys):
                         ci = names.index(type(root).__name__)
